@@ -47,6 +47,10 @@ def main(run):
                 except Exception:  # noqa
                     pass
             pars = {k: v for k, v in pars.items() if not (k.endswith("_M0") or k.endswith("_mtheta") or k.endswith("_mphi") or k.startswith("up_"))}
+            if rep % 2 == 1 or not callable(getattr(info, "random", None)):
+                # parameters that default to zero (roughness, penetration, ...) switched on
+                if c01.nonzero_defaults(info, pars, rng):
+                    stats["zero_defaults_switched_on"] = stats.get("zero_defaults_switched_on", 0) + 1
             size = size_of(info, pars)
             q = np.logspace(math.log10(1e-5 / size), math.log10(20.0 / size), 40)
             kernel = model.make_kernel([q])
